@@ -15,7 +15,7 @@ var c19FaultKinds = []string{
 	"header-missing-trailing-at", "header-text-after-atat", "header-plain-text-first-line", "header-short",
 	"meta-unknown-type", "meta-duplicate-same-line", "meta-duplicate-later-line", "meta-duplicate-later-group",
 	"meta-missing-var", "meta-missing-type", "meta-missing-name-after-comma", "meta-non-identifier", "meta-trailing-junk",
-	"meta-cut-short-at-end-of-section",
+	"meta-cut-short-at-end-of-section", "meta-repeated-section",
 }
 
 // c19Patch builds a valid multi-change patch and injects one fault; it returns the text and
@@ -26,6 +26,34 @@ func c19Patch(r *rand.Rand, kind string) (text string, line int, cols []int, cha
 
 // c19PatchAlt: alt, when not nil, receives further acceptable "line:col" spellings of the fault's position.
 func c19PatchAlt(r *rand.Rand, kind string, alt *[]string) (text string, line int, cols []int, changeIdx int, shape string, also []string) {
+	if kind == "meta-repeated-section" {
+		// several changes whose metavariable sections are the same text, copied with its fault (an unknown type, a
+		// duplicate): every one of them is reported where it stands
+		n := 2 + r.Intn(3)
+		decl, col := "var é, q1 strng", len("var é, q1 ")+1
+		if r.Intn(2) == 0 {
+			decl, col = "var rdup identifier; var é8, rdup expression", len("var rdup identifier; var é8, ")+1
+		}
+		extra := []string{"", "var w expression\n", "# shared note\n"}[r.Intn(3)]
+		var lines []string
+		for c := 0; c < n; c++ {
+			for i := r.Intn(3); i > 0; i-- {
+				lines = append(lines, []string{"# note", "", "# é multi-byte"}[r.Intn(3)])
+			}
+			lines = append(lines, []string{"@@", fmt.Sprintf("@ rep%d @", c)}[r.Intn(2)])
+			if extra != "" {
+				lines = append(lines, strings.TrimSuffix(extra, "\n"))
+			}
+			lines = append(lines, decl)
+			if c == 0 {
+				line, cols = len(lines), []int{col}
+			} else {
+				also = append(also, fmt.Sprintf("%d:%d", len(lines), col))
+			}
+			lines = append(lines, "@@", fmt.Sprintf("-foo%d(1)", c), fmt.Sprintf("+bar%d(1)", c), "")
+		}
+		return strings.Join(lines, "\n") + "\n", line, cols, 0, fmt.Sprintf("repeated-section changes=%d", n), also
+	}
 	indented := false
 	atClose := false // the offending token is the "@@" that closes the section
 	defer func() {
